@@ -216,6 +216,10 @@ func (ex *Exec) Run() {
 		}
 	}
 	// frames: entry at the bottom, inits on top (run first, in listed order)
+	ensureBuilt(ex.Entry)
+	for _, f := range initFns {
+		ensureBuilt(f)
+	}
 	st.Frames = append(st.Frames, newFrame(ex.Entry, nil, nil, nil))
 	for i := len(initFns) - 1; i >= 0; i-- {
 		st.Frames = append(st.Frames, newFrame(initFns[i], nil, nil, nil))
